@@ -86,6 +86,9 @@ type c11Scn struct {
 	xgo   bool
 	build func(e *c11Env)
 	ref   string // plain Go statements (may use tag via %TAG%)
+	// mayReject: the construct is not promised to be accepted (e.g. a constant *expression*, not a literal, too large
+	// for int64 assigned to a big-number type); when accepted its meaning is checked, when rejected nothing is decided
+	mayReject bool
 }
 
 func lit(kind token.Token, v string) *ast.BasicLit { return &ast.BasicLit{Kind: kind, Value: v} }
@@ -414,6 +417,15 @@ func c11Scenarios() []c11Scn {
 	}
 	// ---- big-number literals evaluate to exactly the written value (XGo configuration)
 	bigs := []string{"0", "1", "-1", "18446744073709551616", "-170141183460469231731687303715884105729", "1267650600228229401496703205376", "123456789012345678901234567890123456789012345678901234567890"}
+	// boundary sweep: around every power of two where a machine-word shortcut could change (int8 ... int64, uint64, float53, 128)
+	for _, k := range []uint{7, 8, 15, 16, 31, 32, 53, 62, 63, 64, 65, 127, 128} {
+		p2 := new(big.Int).Lsh(big.NewInt(1), k)
+		for _, d := range []int64{-1, 0, 1} {
+			v := new(big.Int).Add(p2, big.NewInt(d))
+			bigs = append(bigs, v.String(), new(big.Int).Neg(v).String())
+		}
+	}
+	bigs = dedupStrings(bigs)
 	for _, bv := range bigs {
 		bv := bv
 		tag := "big/int/" + bv
@@ -424,7 +436,50 @@ func c11Scenarios() []c11Scn {
 			e.print(tag, func() int { e.cb.VarVal("x").MemberVal("String", 0).Call(0); return 1 })
 		}, ref: fmt.Sprintf("fmt.Println(%q, %q)", tag, bv)})
 	}
-	for _, rv := range [][2]string{{"1", "3"}, {"-22", "7"}, {"1", "1000000000000000000000000000001"}, {"5", "1"}, {"340282366920938463463374607431768211456", "3"}} {
+	// untyped integer constants assigned to a big-number variable (implicit conversion of the constant)
+	for _, k := range []int{31, 62, 63, 64, 100} {
+		for _, form := range []string{"pow", "neg", "pred", "negpred"} {
+			k, form := k, form
+			v := new(big.Int).Lsh(big.NewInt(1), uint(k))
+			switch form {
+			case "neg":
+				v.Neg(v)
+			case "pred":
+				v.Sub(v, big.NewInt(1))
+			case "negpred":
+				v.Sub(v, big.NewInt(1)).Neg(v)
+			}
+			for _, ty := range []string{"XGo_bigint", "XGo_bigrat"} {
+				ty := ty
+				tag := fmt.Sprintf("big/const/%s/%s/%d", ty, form, k)
+				want := v.String()
+				if ty == "XGo_bigrat" {
+					want = new(big.Rat).SetInt(v).String()
+				}
+				add(c11Scn{tag: tag, xgo: true, mayReject: true, build: func(e *c11Env) {
+					bt := e.pkg.Import("github.com/goplus/gogen/internal/builtin").Ref(ty).Type()
+					e.cb.NewVarStart(bt, "x").Val(1).Val(k).BinaryOp(token.SHL)
+					if form == "pred" || form == "negpred" {
+						e.cb.Val(1).BinaryOp(token.SUB)
+					}
+					if form == "neg" || form == "negpred" {
+						e.cb.UnaryOp(token.SUB)
+					}
+					e.cb.EndInit(1)
+					e.print(tag, func() int { e.cb.VarVal("x").MemberVal("String", 0).Call(0); return 1 })
+				}, ref: fmt.Sprintf("fmt.Println(%q, %q)", tag, want)})
+			}
+		}
+	}
+	rats := [][2]string{{"1", "3"}, {"-22", "7"}, {"1", "1000000000000000000000000000001"}, {"5", "1"}, {"340282366920938463463374607431768211456", "3"}}
+	for _, k := range []uint{31, 63, 64} {
+		p2 := new(big.Int).Lsh(big.NewInt(1), k)
+		for _, d := range []int64{-1, 0, 1} {
+			v := new(big.Int).Add(p2, big.NewInt(d)).String()
+			rats = append(rats, [2]string{v, "3"}, [2]string{"-" + v, "340282366920938463463374607431768211459"}, [2]string{"1", v}, [2]string{"340282366920938463463374607431768211459", v})
+		}
+	}
+	for _, rv := range rats {
 		rv := rv
 		tag := "big/rat/" + rv[0] + "/" + rv[1]
 		a, _ := new(big.Int).SetString(rv[0], 10)
@@ -571,6 +626,8 @@ func c11Run(tier string, seed uint64, i int) []h.Result {
 			res.Verdict, res.Kind, res.Detail = h.Inconclusive, "prelude", o.Msg
 		case o.Status == "crash":
 			res.Verdict, res.Kind, res.Detail = h.Violated, "crash: "+o.CrashSig, o.Msg+"\n"+o.Stack
+		case o.Status != "accepted" && s.mayReject:
+			res.Verdict, res.Kind, res.Detail, res.NonTrivial = h.Skip, "not-accepted(no promise)", o.Msg, false
 		case o.Status != "accepted":
 			res.Verdict, res.Kind, res.Detail = h.Violated, "extension-rejected", o.Msg
 		case len(o.OutErrs) > 0:
@@ -660,10 +717,10 @@ func init() {
 			"lower-case method alias and auto-property on local and imported types incl. pointer receivers; inline closure calls (arguments from side-effecting calls bound once, early return, variadic); zero-argument conversions; duration unit literals; big integer/rational literals and the operators on them (XGo configuration). " +
 			"Phase 1: each scenario alone must be accepted and its output must type-check. Phase 2: the accepted scenarios are assembled into one program per configuration, an independently written plain-Go reference program is generated from the table " +
 			"(library calls as documented; big-number expectations computed with math/big), both are compiled and executed, and the printed results (incl. the side-effect counter) are compared per scenario. non-trivial = scenario decided; distinct by scenario tag",
-		Assume: []string{"the documented meaning of each row is written in the scenario table (library call / zero value / exact decimal)", "the Go toolchain compiles and runs both programs; go/types on the emitted package"},
-		MinNT:  100,
-		Plan:   func(tier string, seed uint64) int { return len(c11List()) + 2 },
-		Run:    c11Run,
+		Assume:     []string{"the documented meaning of each row is written in the scenario table (library call / zero value / exact decimal)", "the Go toolchain compiles and runs both programs; go/types on the emitted package"},
+		MinNT:      100,
+		Plan:       func(tier string, seed uint64) int { return len(c11List()) + 2 },
+		Run:        c11Run,
 		Exhaustive: func(string) bool { return true },
 	})
 }
